@@ -62,6 +62,43 @@ def zero_decode_ref(data: bytes) -> bytes:
     return bytes(out)
 
 
+def zero_encode_noncanonical(data: bytes, style: int = 0) -> bytes:
+    """Same bytes after decoding, but not the canonical coding: runs are split in two
+    (style 0) or a run >= 256 uses the wrap-around form (style 1, falls back to style 0)."""
+    out = bytearray()
+    i = 0
+    n = len(data)
+    changed = False
+    while i < n:
+        if data[i] == 0:
+            j = i
+            while j < n and data[j] == 0:
+                j += 1
+            run = j - i
+            i = j
+            if style == 1 and 256 <= run <= 511:
+                out += bytes([0, 0, run - 256]) if run > 256 else bytes([0, 0, 0])[:2] + b""
+                if run == 256:
+                    # 00 00 followed by a non-zero byte would be read as a count: emit 00 FF 00 01 instead
+                    del out[-2:]
+                    out += bytes([0, 255, 0, 1])
+                else:
+                    changed = True
+                continue
+            while run > 255:
+                out += bytes([0, 255])
+                run -= 255
+            if run >= 2 and not changed:
+                out += bytes([0, 1, 0, run - 1])
+                changed = True
+            elif run:
+                out += bytes([0, run])
+        else:
+            out.append(data[i])
+            i += 1
+    return bytes(out)
+
+
 def is_canonical_zero_coding(coded: bytes) -> bool:
     try:
         return zero_encode_ref(zero_decode_ref(coded)) == coded
@@ -112,7 +149,7 @@ def parse_datagram(data: bytes) -> Parsed:
     if p.flags & ACK:
         n = data[-1]
         end -= 1 + 4 * n
-        if end < 6:
+        if end <= 6:
             raise ValueError("bad acks")
         for k in range(n):
             off = end + 4 * k
